@@ -2,7 +2,14 @@
 
 package io
 
-import "fmt"
+import (
+	"fmt"
+	"reflect"
+	"unsafe"
+
+	mdag "github.com/ipfs/boxo/ipld/merkledag"
+	ipld "github.com/ipfs/go-ipld-format"
+)
 
 // VerifC10ReaderState returns the CID of the root a dagReader was opened on
 // and a rendering of its cursor (offset, leaf buffer remaining). Read-only.
@@ -16,4 +23,38 @@ func VerifC10ReaderState(r DagReader) (root string, state string, off int64) {
 		buf = fmt.Sprintf("%d/%d", dr.currentNodeData.Len(), dr.currentNodeData.Size())
 	}
 	return dr.rootNode.Cid().String(), fmt.Sprintf("off=%d buf=%s", dr.offset, buf), dr.offset
+}
+
+// VerifC10ReaderWedge inspects the reader's walker: it returns the shallowest
+// level on the active path whose child index lies beyond the node's current
+// number of links (-1 if none), the walker depth, and the bytes left in the
+// loaded leaf buffer (-1 if none). The Walker documents childIndex <=
+// ChildTotal as its invariant; with childIndex > ChildTotal, NextChild()
+// neither advances nor reports ErrNextNoChild, and Walker.Iterate alternates
+// down()=ErrDownNoChild / NextChild()=nil forever. Read-only.
+func VerifC10ReaderWedge(r DagReader) (level, depth, bufLeft int) {
+	level, bufLeft = -1, -1
+	dr, ok := r.(*dagReader)
+	if !ok {
+		return
+	}
+	if dr.currentNodeData != nil {
+		bufLeft = dr.currentNodeData.Len()
+	}
+	w := reflect.ValueOf(dr.dagWalker).Elem()
+	depth = int(w.FieldByName("currentDepth").Int())
+	ci := w.FieldByName("childIndex")
+	pf := w.FieldByName("path")
+	pf = reflect.NewAt(pf.Type(), unsafe.Pointer(pf.UnsafeAddr())).Elem()
+	nodes := pf.Interface().([]ipld.NavigableNode)
+	for l := 0; l <= depth && l < len(nodes) && l < ci.Len(); l++ {
+		total := 0
+		if pn, ok := ipld.ExtractIPLDNode(nodes[l]).(*mdag.ProtoNode); ok {
+			total = mdag.VerifC10LinkCount(pn)
+		}
+		if int(ci.Index(l).Uint()) > total {
+			return l, depth, bufLeft
+		}
+	}
+	return
 }
